@@ -12,6 +12,30 @@ from typing import List, Tuple, Optional, Callable
 from .opcodes import RegexOpCode as Op
 
 
+# ECMAScript character classes. Python's str.isdigit/isalnum/isspace follow
+# Unicode (and isspace also accepts U+001C..U+001F), which is not what \d, \w,
+# \s and \b mean in a JavaScript regular expression.
+_WORD_CHARS = frozenset(
+    "ABCDEFGHIJKLMNOPQRSTUVWXYZabcdefghijklmnopqrstuvwxyz0123456789_"
+)
+_SPACE_CHARS = frozenset(
+    "\t\n\v\f\r \u00a0\u1680\u2000\u2001\u2002\u2003\u2004\u2005\u2006"
+    "\u2007\u2008\u2009\u200a\u2028\u2029\u202f\u205f\u3000\ufeff"
+)
+
+
+def _is_digit(ch: str) -> bool:
+    return "0" <= ch <= "9"
+
+
+def _is_word(ch: str) -> bool:
+    return ch in _WORD_CHARS
+
+
+def _is_space(ch: str) -> bool:
+    return ch in _SPACE_CHARS
+
+
 class RegexTimeoutError(Exception):
     """Raised when regex execution times out."""
 
@@ -218,7 +242,7 @@ class RegexVM:
                 pc += 1
 
             elif opcode == Op.DIGIT:
-                if sp >= len(string) or not string[sp].isdigit():
+                if sp >= len(string) or not _is_digit(string[sp]):
                     if not stack:
                         return None
                     pc, sp, captures, registers = self._backtrack(stack)
@@ -227,7 +251,7 @@ class RegexVM:
                 pc += 1
 
             elif opcode == Op.NOT_DIGIT:
-                if sp >= len(string) or string[sp].isdigit():
+                if sp >= len(string) or _is_digit(string[sp]):
                     if not stack:
                         return None
                     pc, sp, captures, registers = self._backtrack(stack)
@@ -236,7 +260,7 @@ class RegexVM:
                 pc += 1
 
             elif opcode == Op.WORD:
-                if sp >= len(string) or not (string[sp].isalnum() or string[sp] == "_"):
+                if sp >= len(string) or not _is_word(string[sp]):
                     if not stack:
                         return None
                     pc, sp, captures, registers = self._backtrack(stack)
@@ -245,7 +269,7 @@ class RegexVM:
                 pc += 1
 
             elif opcode == Op.NOT_WORD:
-                if sp >= len(string) or (string[sp].isalnum() or string[sp] == "_"):
+                if sp >= len(string) or _is_word(string[sp]):
                     if not stack:
                         return None
                     pc, sp, captures, registers = self._backtrack(stack)
@@ -254,7 +278,7 @@ class RegexVM:
                 pc += 1
 
             elif opcode == Op.SPACE:
-                if sp >= len(string) or not string[sp].isspace():
+                if sp >= len(string) or not _is_space(string[sp]):
                     if not stack:
                         return None
                     pc, sp, captures, registers = self._backtrack(stack)
@@ -263,7 +287,7 @@ class RegexVM:
                 pc += 1
 
             elif opcode == Op.NOT_SPACE:
-                if sp >= len(string) or string[sp].isspace():
+                if sp >= len(string) or _is_space(string[sp]):
                     if not stack:
                         return None
                     pc, sp, captures, registers = self._backtrack(stack)
@@ -616,7 +640,7 @@ class RegexVM:
         """Check if position is at a word boundary."""
 
         def is_word_char(ch: str) -> bool:
-            return ch.isalnum() or ch == "_"
+            return _is_word(ch)
 
         before = pos > 0 and is_word_char(string[pos - 1])
         after = pos < len(string) and is_word_char(string[pos])
@@ -813,7 +837,7 @@ class RegexVM:
                 pc += 1
 
             elif opcode == Op.DIGIT:
-                if sp >= len(string) or not string[sp].isdigit():
+                if sp >= len(string) or not _is_digit(string[sp]):
                     if not stack:
                         return False
                     pc, sp, captures, registers = stack.pop()
@@ -828,7 +852,7 @@ class RegexVM:
                     pc, sp, captures, registers = stack.pop()
                     continue
                 ch = string[sp]
-                if ch.isalnum() or ch == "_":
+                if _is_word(ch):
                     sp += 1
                     pc += 1
                 else:
